@@ -6,6 +6,7 @@ pub mod c03;
 pub mod c04;
 pub mod c06;
 pub mod c07;
+pub mod c09;
 pub mod c12;
 pub mod c13;
 pub mod c14;
@@ -23,6 +24,7 @@ pub fn lookup(id: &str) -> Option<fn(&Report, bool) -> Evidence> {
         "C06" => c06::run,
         "C07" => c07::run,
         "C08" => c07::run_c08,
+        "C09" => c09::run,
         "C12" => c12::run,
         "C13" => c13::run,
         "C14" => c14::run,
